@@ -151,6 +151,7 @@ fn worker(base: u64, first: u64, count: u64, known: &[String]) -> WorkerOut {
             break;
         }
     }
+    PROGRESS.store(u64::MAX, std::sync::atomic::Ordering::Relaxed); // disarm the watchdog
     out.trace_hashes = traces.into_iter().collect();
     out.subject_spec_hashes = subj.into_iter().collect();
     out.units_shown = units.into_iter().collect();
@@ -454,15 +455,7 @@ fn batch(args: &[String]) -> i32 {
         children.push((first, n, ch));
         first += n;
     }
-    // determinism re-check: the first chunk's first runs once more, in another process
     let recheck_n = chunk.min(runs).min(2000);
-    let recheck = Command::new(&exe)
-        .args(["worker", &seed.to_string(), "0", &recheck_n.to_string(), &known_list.join(",")])
-        .stdout(Stdio::piped())
-        .stderr(Stdio::inherit())
-        .spawn()
-        .expect("spawn worker");
-
     let mut total = RunStats::default();
     let (mut nruns, mut nontrivial_runs, mut fault_then) = (0u64, 0u64, 0u64);
     let mut traces = BTreeSet::new();
@@ -504,19 +497,16 @@ fn batch(args: &[String]) -> i32 {
             first_chunk_out = Some(w);
         }
     }
-    // determinism
+    // determinism re-check: the first seeds executed twice more, each in a
+    // fresh process; the hashes cover every operation line of every run
     let mut deterministic = serde_json::Value::Null;
-    if let (Ok(o), Some(fc)) = (recheck.wait_with_output(), &first_chunk_out) {
-        if let Ok(w) = serde_json::from_slice::<WorkerOut>(&o.stdout) {
-            if fc.failure.is_none() && fc.runs >= recheck_n {
-                // compare by re-running exactly the same range: hashes cover every op line
-                let again = worker_hash_prefix(&exe, seed, recheck_n, &known_list);
-                deterministic = json!({"runs_rechecked": recheck_n, "identical": again == Some(w.loghash)});
-                if again != Some(w.loghash) {
-                    eprintln!("HARNESS ERROR: two executions of the same {recheck_n} seeds differ");
-                    return 2;
-                }
-            }
+    if first_chunk_out.as_ref().map(|fc| fc.failure.is_none() && fc.runs >= recheck_n).unwrap_or(false) {
+        let a = worker_hash_prefix(&exe, seed, recheck_n, &known_list);
+        let b = worker_hash_prefix(&exe, seed, recheck_n, &known_list);
+        deterministic = json!({"runs_rechecked": recheck_n, "identical": a.is_some() && a == b});
+        if a.is_none() || a != b {
+            eprintln!("HARNESS ERROR: two executions of the same {recheck_n} seeds differ");
+            return 2;
         }
     }
 
